@@ -10,6 +10,8 @@ import (
 )
 
 var props = map[string]func(tier string) []Scen{
+	"C01": scenariosC01,
+	"C10": scenariosC10,
 	"C14": scenariosC14,
 	"C15": scenariosC15,
 	"C16": scenariosC16,
@@ -18,12 +20,16 @@ var props = map[string]func(tier string) []Scen{
 const ruleA = "every scenario (a closed thread set with scripts) is explored exhaustively by depth-first search over scheduler/environment choice sequences up to the stated deviation bound (delay bounding: base schedule is non-preemptive round-robin, taking the k-th other enabled thread costs k); every execution runs the real code of /repo's working tree (instrumented through go build -overlay) to quiescence; states = choice points visited in the explored tree, transitions = scheduling steps executed, traces_validated_against_impl = executions; distinct_nontrivial = distinct final observations (event log, return values, bytes received per client, handler invocation log)"
 
 var rules = map[string]string{
+	"C01": ruleA + "; scenarios = call scripts (target x flags x handler reply script) on 1-3 connections x segmentations of the request bytes; per connection the frames received and the handler invocation log are compared with a sequential reference model of that connection alone",
+	"C10": ruleA + "; scenarios = frame-kind sequences (valid calls, wrong-shape JSON, invalid JSON, empty frame, 5 KiB frame, unterminated tail) x the byte offset at which the client stops x how it goes away (half-close, close, abort) x injected reply-write failure, with a well-behaved probe connection and a final Shutdown; schedule deviations are explored at frame-boundary offsets",
 	"C14": ruleA,
 	"C16": ruleA + "; in every execution a vector-clock happens-before monitor (edges: spawn, thread end->WaitGroup.Wait, Unlock->Lock, channel send->receive, cancel->observing Done, peer write->read, SetDeadline/Close->the I/O they fail) checks every instrumented read/write of a field of a struct declared in packages varlink/ctxio (fields never written after construction are skipped) for a conflicting HB-unordered access",
 	"C15": ruleA + "; accept-deadline expiries are events of a timer thread, enabled whenever the controlled listener is armed, so the explorer places each expiry at every instant",
 }
 
 var assumptions = map[string][]string{
+	"C10": {"classifyCall restates 'a JSON value of the call's shape' with encoding/json used only as a generic decoder", "when the peer has closed or aborted, what was answered and dispatched must be a prefix of the reference (how far the service got is schedule dependent); with a half-close it must equal the reference", "vnet: abort discards unread data and fails reads with ECONNRESET, writes to a closed or aborted peer fail with EPIPE"},
+	"C01": {"reference model refConn restates the property text (call order, accepted reply attempts only, oneway silence, continues needs more, handler error ends the connection)", "clients are raw byte writers that half-close after their script, so reply writes never fail", "vnet semantics and scheduling-point sufficiency as for C14"},
 	"C16": {"only accesses vinstr instruments are monitored: selector expressions naming fields of struct types declared in packages varlink and ctxio, method calls through pointer-to-struct fields (e.g. the bufio.Reader), package-level variables; memory touched only inside the standard library is not seen", "the list of happens-before edges is complete for the primitives the library uses (sync.Mutex/WaitGroup, buffered channels, context, net.Conn/net.Listener internal locking)", "intended concurrent use = API operations issued after the serving call has been entered; one goroutine at a time per client connection"},
 	"C15": {"an expired accept deadline makes Accept return a timeout error even if a connection is queued (as Go's netpoller does); SetDeadline re-arms", "the value passed to SetDeadline is not interpreted: time is the timer thread's events", "vnet semantics and scheduling-point sufficiency as for C14"},
 	"C14": {"vnet.Listener/vnet.Conn implement the documented net.Listener/net.Conn semantics (Close fails a pending Accept, reads return EOF after orderly close, ECONNRESET after abort)", "scheduling points at every sync op, channel op, select, instrumented field access and vnet method are sufficient: code between two points touches no shared state other than through those", "deviation bound and scenario alphabet as listed in coverage; nothing beyond them is claimed"},
